@@ -13,4 +13,4 @@ CONSTANTS
   MaxCompact = 0
 CONSTRAINT Bound
 VIEW View
-INVARIANTS Laws Convergence
+INVARIANTS Laws Growing Convergence
